@@ -100,3 +100,8 @@ func init() {
 		regionSpec{fn: "consensus.validateV2FileContracts", name: "validateRevision", closure: "validateRevision"},
 	)
 }
+
+func init() {
+	// C01 / C10 — the check of a same-block ("ephemeral") parent record, whole functions
+	tcodeRoots = append(tcodeRoots, "consensus.validateEphemeralSiacoinElement", "consensus.validateEphemeralSiafundElement")
+}
